@@ -1,16 +1,11 @@
 package simrt
 
-// Hooks at statements that touch package-level variables (R3) and locals captured by the
-// library's own goroutine closures (R3b). They are yield points of class 1: the places where
-// a preemption can separate a read of shared state from the write that depends on it.
-// Whether two accesses are ordered is not judged here: that is the race detector's job in
-// lane R (the same hooks, the same schedules, inside a -race build).
-
-// Access marks a statement that touches a package-level variable as a whole.
-func Access(site, v, kind int) { AccessC(site, v, kind, nil) }
-
-// AccessC marks a statement that touches a first-level component of a package-level variable.
-func AccessC(site, v, kind int, p any) {
+// Access marks a statement that touches a package-level variable (R3) or a local captured
+// by one of the library's own goroutine closures (R3b). It is a yield point of class 1: the
+// place where a preemption can separate a read of shared state from the write that depends
+// on it. Whether two accesses are ordered is not judged here: that is the race detector's
+// job in lane R (the same hooks, the same schedules, inside a -race build).
+func Access(site, v, kind int) {
 	if !Active {
 		return
 	}
@@ -22,7 +17,3 @@ func AccessC(site, v, kind int, p any) {
 		s.yield(site, 1)
 	}
 }
-
-// AccessL marks a statement that touches a local variable shared with goroutines the
-// library started (captured by a `go func(){...}` closure).
-func AccessL(site, v, kind int, p any) { AccessC(site, v, kind, p) }
